@@ -11,7 +11,7 @@ import (
 )
 
 //verif:bounds C11 HC11_tournament: known alternatives A<=4 (quick) / A<=5 (thorough); considered = all (all-but-last when currentChoice is known-but-not-considered; thorough: both); K=2 criteria (quick) / K=1..3 (thorough), first criterion gain or cost, others alternate cost/gain, all four draw policies, currentChoice absent / first considered / last considered / known-not-considered, fixed search order; all values and weights free reals (weights in [0,4])
-//verif:bounds C11 HC11_shuffle: seeded-random search order (every draw symbolic), A<=4 (quick) / A<=5 (thorough), K=2 (quick) / K=1..2 (thorough); the oracle replicates the seeded shuffle from the same stream and runs the full reference tournament
+//verif:bounds C11 HC11_shuffle: seeded-random search order (every draw symbolic), A<=4, K<=2 (both tiers); the oracle replicates the seeded shuffle from the same stream and runs the full reference tournament
 //verif:outside C11: A and K beyond the bounds; the value reported for the undefeated alternative (not part of the statement); rounding of score sums (REAL mode)
 //verif:assume C11: scores are sums over the reals; ties are |s1-s2| <= 1e-6 and |v1-v2| <= 1e-6 exactly as in the statement
 
@@ -132,7 +132,7 @@ func c11reference(s *c11setup, r *model.AlternativesRanking, order []string, gen
 
 //verif:harness HC11_shuffle mode=REAL reach=shuffled
 func HC11_shuffle() {
-	s := c11build(rt.Pick(4, 5), 2, true)
+	s := c11build(4, 2, true) // A=5 with symbolic shuffle draws was not run to completion: not registered
 	dmp := vh.Params(s.known, s.chose, s.crit, s.params)
 	r := c11majority().Evaluate(dmp)
 	vh.WellFormed("C11.shuffle.wellformed", r, s.expectedIds)
